@@ -343,7 +343,7 @@ theorem afill_wq (a : A) (k : Pid) (ans : Ans) : (afill a k ans).1.wq = a.wq := 
 
 /-- Filling the cell of `k` (in a step that does not end in `bad`): every remaining request is an
 old one that does not involve `k`, or the filled one. `Q` is any property of requests. -/
-theorem afill_reqs (a : A) (k : Pid) (ans : Ans) (hnd : (ids a.reqs).Nodup) (Q : Req → Prop)
+theorem afill_reqs_pred (a : A) (k : Pid) (ans : Ans) (hnd : (ids a.reqs).Nodup) (Q : Req → Prop)
     (hold : ∀ y ∈ a.reqs, k ∉ idsR y → Q y)
     (hnew1 : ∀ y0 ∈ a.reqs, y0.p = k → Q { y0 with st := .cells [.filled ans] })
     (hnew2 : ∀ y0 ∈ a.reqs, ∀ cs, y0.st = .cells cs → k ∈ openIds cs → Q { y0 with st := .cells (fillCell k ans cs) })
@@ -442,7 +442,7 @@ theorem hc_afill (a : A) (k : Pid) (ans : Ans) (hnd : (ids a.reqs).Nodup)
        ∀ q w, Cell.written q w ∈ cs → q ≠ k → q ∈ getL a.wq w) : HC (afill a k ans).1 := by
   intro y hy
   rw [afill_wq]
-  refine afill_reqs a k ans hnd (HCreq a.wq) h ?_ ?_ hgood y hy
+  refine afill_reqs_pred a k ans hnd (HCreq a.wq) h ?_ ?_ hgood y hy
   · intro y0 _ _
     exact ⟨fun w hw => (by cases hw), fun cs q w hc hm => by injection hc with hc; subst hc; simp at hm⟩
   · intro y0 hy0 cs hst hk
